@@ -34,6 +34,17 @@ claimed.update({
    text="Messages over the header/URL/body grammar emitted by the real Request/Response/Packet Write methods, concatenated on a simulated connection whose reads return tape-chosen chunk sizes, with EOF at an arbitrary byte, garbage, an endless header line and an absurd Content-Length as faults; reader = the real receive dispatcher. Oracle: exactly the emitted sequence up to the fault, no invented message, error instead of panic/hang, bounded buffering and allocation for oversize input.",
    note="Trusted: sim.Conn (TCP model: no loss/reorder), the comparison of multi-valued headers by joined value, thresholds stated in the evidence (1 MiB line, 4e8 Content-Length, 64 MiB allocation). The input grammar is sampled, not swept: only the chunking/EOF/fault dimension is what simulation adds."),
 })
+claimed.update({
+ "C12": dict(level="exploration", ref="§5 C12",
+   text="Scripts of up to 10 requests over the property's method alphabet (valid and invalid transports, paths, SDP bodies) on a simulated RTSP/TCP connection to the real session code, delivered in chunks, optionally pipelined or cut by a disconnect at an arbitrary byte, while a publisher feeds the stream; oracle = reference automaton (must-2xx / must-455 / must-not-2xx per state and method) plus per-request rules: one response each with echoed CSeq and constant session id, no frame before a successful PLAY, no stream registered before a successful RECORD, everything released after TEARDOWN or disconnect.",
+   note="Trusted: sim.Conn TCP model, the reference automaton in scen/c12.go (only outcomes fixed by the statement are demanded), the harness publisher. ws-rtsp and WSP transports: see DESIGN.md for what is covered."),
+ "C13": dict(level="exploration", ref="§5 C13",
+   text="A playing RTSP/TCP session (video+audio interleaved) with 20-80 packets of 13..65000 bytes and fake-clock gaps, while the client fires OPTIONS/PLAY/GET_PARAMETER at tape-chosen moments; every server-side connection write, the point between frame prefix and payload, and every contended lock acquisition is a schedule point; an independent reader parses the whole server output: complete responses and complete frames only, frames equal published packets contiguously per channel, one response per request.",
+   note="Trusted: sim.Conn, token scheduler, BeforeLock modelling of the per-session write mutex (reach probe lock.contended must be >0). WebSocket transports: see DESIGN.md."),
+ "C19": dict(level="exploration", ref="§5 C19",
+   text="Real listener.Listener with the real RTSP and HTTP matchers over a simulated root listener; 1-3 connections whose first line comes from the method x target x version grammar or is clearly neither, written in tape-chosen segments with fake-clock pauses around the 15 s sniff timeout, read by stub services with 1..8192-byte buffers; oracle: reference classifier from the statement, byte stream identical and complete from the first byte, exactly one service or closed.",
+   note="Trusted: sim.Listener/sim.Conn, the reference classifier; first lines the statement leaves undefined (known method name followed by other letters; first bytes incomplete at the timeout) are not judged for routing, only for byte integrity."),
+})
 pending = {
 }
 not_applicable = {
